@@ -79,7 +79,12 @@ type Case struct {
 	// OriginCut: if >= 0 the final response to request number OriginCloseAfter (0-based, counted at the origin) is cut after this many bytes, then the origin closes.
 	OriginCut int `json:"origin_cut"`
 	// OriginHold: the origin withholds all responses until it has received this many requests.
-	OriginHold int    `json:"origin_hold"`
+	OriginHold int `json:"origin_hold"`
+	// OriginMode: how the origin puts its responses on the wire: "" = one write per response; "coalesce" = the responses to
+	// the first OriginHold requests in ONE write (they arrive together in the proxy's read buffer); "split" = every response in
+	// several writes cut inside the head and inside the body (cut points derived from SplitSeed).
+	OriginMode string `json:"origin_mode,omitempty"`
+	SplitSeed  uint64 `json:"split_seed,omitempty"`
 	Kind       string `json:"kind"` // generator bucket (for the distribution only)
 }
 
@@ -613,6 +618,12 @@ func genCase(r *common.Rng, search bool) Case {
 	}
 	c.FirstFwd = nfail
 	special := r.Intn(12)
+	if search && r.Chance(2, 3) { // violation search: early closes and arrival patterns at the origin side
+		special = common.Pick(r, []int{4, 5, 6, 7, 8, 7, 8, 2})
+	}
+	if (special == 7 || special == 8) && n < 2 {
+		n = r.Range(2, 8)
+	}
 	for i := nfail; i < nfail+n; i++ {
 		q := genReq(r, &c, i, host)
 		if c.Auth && (i == nfail || r.Chance(1, 2)) {
@@ -708,9 +719,65 @@ func genCase(r *common.Rng, search bool) Case {
 			}
 			c.Kind = "origin-hold"
 		}
+	case 7, 8: // the origin answers several pipelined requests in one write; a non-last response ends the connection
+		if c.Kind == "plain" {
+			if c.Depth < 2 {
+				c.Depth = common.Pick(r, []int{2, 3, 5, 8, 16, 20})
+			}
+			c.OriginHold = min(c.Depth, n, 16)
+			c.OriginMode = "coalesce"
+			for i := nfail; i < len(c.Reqs); i++ {
+				c.Reqs[i].WaitContinue = false
+			}
+			c.Kind = "origin-coalesce"
+		}
+	}
+	if c.OriginMode == "" && c.OriginHold <= 1 && r.Chance(1, 4) {
+		c.OriginMode, c.SplitSeed = "split", r.U64()
 	}
 	for i, q := range c.Reqs {
 		c.Scripts = append(c.Scripts, genScript(r, i, q, search))
+	}
+	if c.OriginMode == "coalesce" {
+		nb := c.OriginHold
+		for k := 0; k < nb; k++ {
+			sc := &c.Scripts[nfail+k]
+			for j := range sc.Resps {
+				p := &sc.Resps[j]
+				if p.Body.Kind == "eof" { // a body delimited by close would swallow the rest of the write
+					p.Body.Kind = "cl"
+				}
+				if len(p.Body.Data) > 150 && r.Chance(5, 6) { // small, so that several responses share the proxy's 4096-byte buffer
+					p.Body.Data = p.Body.Data[:r.Range(0, 150)]
+					p.Body.Chunks = nil
+				}
+				var hs []HF
+				for _, h := range p.Headers {
+					if len(h.V) > 100 {
+						h.V = strings.Trim(h.V[:100], " \t")
+					}
+					hs = append(hs, h)
+				}
+				p.Headers = hs
+			}
+		}
+		j := nfail + r.Intn(nb-1) // a non-last request of the batch
+		fin := &c.Scripts[j].Resps[len(c.Scripts[j].Resps)-1]
+		switch r.Intn(8) {
+		case 0, 1, 2, 3: // Connection: close on a non-last response
+			if fin.Garbage == "" && !fin.Close {
+				fin.Close = true
+				fin.Headers = append(fin.Headers, HF{K: recase(r, "Connection"), V: common.Pick(r, []string{"close", "Close", "x-absent, close"}), Pad: " "})
+			}
+		case 4, 5: // a non-last request asked to close
+			if !c.Reqs[j].Close {
+				c.Reqs[j].Close = true
+				c.Reqs[j].Headers = append(c.Reqs[j].Headers, HF{K: "Connection", V: "close", Pad: " "})
+			}
+		case 6: // garbage after k good responses
+			g := nfail + r.Range(1, nb-1)
+			c.Scripts[g] = Script{Resps: []Resp{{Garbage: common.Pick(r, []string{"HTP/1.1 200 OK\r\n\r\n", "HTTP/1.1 abc OK\r\n\r\n", "garbage\r\n\r\n"})}}}
+		}
 	}
 	if c.OriginHold > 1 { // withheld responses must not end the connection before the hold is released
 		for i := range c.Scripts {
